@@ -506,6 +506,7 @@ def setup(run):
     binary = vlib.build_impl()
     vlib.regen_facts(binary)
     run.check_proofs('C18', THEOREMS, extra_targets=['theories/Extract/Ex_progress.vo'])
+    run.check_path_translation()      # is_same_or_inside as regenerated from the source text never panics on well-formed UTF-8
     jbin = vlib.build_judge('progress')
     return binary, jbin
 
